@@ -777,9 +777,9 @@ Definition f_reverse (v : value) : outcome value :=
   | VStr safe s => Ok (VStr safe (rev s))
   | VUndef | VNone => Ok v
   | VBytes bs => Ok (VBytes (rev bs))
-  | VIter LzRev xs => Ok (VIter LzUnsized xs)     (* Enumerator::RevIter: the iterator is used as it is *)
-  | VSeq xs | VTuple xs | VIter _ xs => Ok (VIter LzUnsized (rev xs))
-  | VMap kvs => Ok (VIter LzUnsized (rev (map fst kvs)))
+  | VIter LzRev xs => Ok (VIter LzSized xs)       (* Enumerator::RevIter: the iterator is used as it is *)
+  | VSeq xs | VTuple xs | VIter _ xs => Ok (VIter LzSized (rev xs))     (* the reversed iterables report an exact size *)
+  | VMap kvs => Ok (VIter LzSized (rev (map fst kvs)))
   | _ => Err E_InvalidOperation
   end.
 
@@ -822,7 +822,7 @@ Definition f_dictsort (by_value cs rev : bool) (v : value) : outcome value :=
 (* filters.rs::items *)
 Definition f_items (v : value) : outcome value :=
   match v with
-  | VMap kvs => Ok (VIter LzUnsized (map pair_value kvs))
+  | VMap kvs => Ok (VIter LzSized (map pair_value kvs))
   | _ => Err E_InvalidOperation
   end.
 
@@ -977,3 +977,18 @@ Fixpoint chain (o : map_order) (left : value) (links : list (cop * value)) : out
   | [] => Ok true
   | (op, r) :: rest => bind (cmp_link o op left r) (fun b => if b then chain o r rest else Ok false)
   end.
+
+(* filters.rs::length (Value::len): lazy iterables only when their size hint is exact *)
+Definition f_length (v : value) : outcome value :=
+  match v with
+  | VStr _ s => Ok (VInt W_I64 (lenZ s))
+  | VBytes s => Ok (VInt W_I64 (lenZ s))
+  | VSeq xs | VTuple xs => Ok (VInt W_I64 (lenZ xs))
+  | VIter LzUnsized _ => Err E_InvalidOperation
+  | VIter _ xs => Ok (VInt W_I64 (lenZ xs))
+  | VMap kvs => Ok (VInt W_I64 (lenZ kvs))
+  | _ => Err E_InvalidOperation
+  end.
+
+(* filters.rs::list *)
+Definition f_list (v : value) : outcome value := bind (iter_items v) (fun items => Ok (VSeq items)).
